@@ -35,7 +35,7 @@ def quiet(fn, *a, **k):
 
 @st.composite
 def base_cases(draw, ncomp=1, min_n=3, max_n=30):
-    cloud = draw(gen.clouds(min_n=min_n, max_n=max_n, max_exp=4, ratios=[0.0, 0.0, 1.0, -1.0, 10.0, -10.0]))
+    cloud = draw(gen.clouds(min_n=min_n, max_n=max_n, max_exp=4, min_exp=-5, ratios=[0.0, 0.0, 1.0, -1.0, 10.0, -10.0]))
     n = len(cloud["cells"])
     kind = draw(st.sampled_from(["unit", "int", "big", "small", "mixed"]))
     data = [draw(gen.data_values(n, kind)) for _ in range(ncomp)]
@@ -71,7 +71,7 @@ def data_scale(jac, jac_q, s, dmax):
     return dmax * np.maximum(1.0, rows_q / rows_d)
 
 
-def judge(ctx, what, jac, jac_q, data, weights, damping, params, pred_q, kernel_abs=None):
+def judge(ctx, what, jac, jac_q, data, weights, damping, params, pred_q, kernel_abs=None, kernel_abs_fit=None):
     """Compare verde's parameters/predictions with the reference optimum."""
     data = np.concatenate([d.ravel() for d in data])
     w = None if weights is None else np.concatenate([x.ravel() for x in weights])
@@ -90,6 +90,9 @@ def judge(ctx, what, jac, jac_q, data, weights, damping, params, pred_q, kernel_
     # parameters when the system is ill conditioned); found by the thorough tier at kappa ~ 5e8
     a_s = np.abs(jac / s)
     r_err = 16 * EPS * max(float(np.max(a_s @ np.abs(params * s))), float(np.max(a_s @ np.abs(p_ref * s))))
+    if kernel_abs_fit is not None:
+        # verde's own kernel values differ from the harness' by their evaluation error (C03 bounds): each residual moves by |dJ|.|p|
+        r_err += float(np.max(kernel_abs_fit @ np.abs(params)))
     slack += 2 * r_err * float(np.sqrt(np.sum(ww) * max(obj_ref, 0.0))) + float(np.sum(ww)) * r_err**2
     if not obj <= obj_ref * (1 + 1e-8) + slack:
         raise Violation("%s: objective at verde's parameters is %.10e, the weighted damped least-squares optimum is %.10e (damping=%r, weights=%s, kappa %.2e)"
@@ -165,7 +168,9 @@ def check_spline(case, ctx):
     jq = kernels.spline_jacobian(qe, qn, fe, fn)
     rho = np.hypot(qe[:, None] - fe[None, :], qn[:, None] - fn[None, :])
     kabs = 32 * EPS * (rho + rho**2 * (1 + np.abs(np.log(np.maximum(rho, 1e-300)))))
-    nt = judge(ctx, "Spline(damping=%r)" % case["damping"], jac, jq, data, weights, case["damping"], sp.force_, [sp.predict((qe, qn))], kernel_abs=kabs)
+    rho_f = np.hypot(e.ravel()[:, None] - fe[None, :], n.ravel()[:, None] - fn[None, :])
+    kabs_fit = 32 * EPS * (rho_f + rho_f**2 * (1 + np.abs(np.log(np.maximum(rho_f, 1e-300)))))
+    nt = judge(ctx, "Spline(damping=%r)" % case["damping"], jac, jq, data, weights, case["damping"], sp.force_, [sp.predict((qe, qn))], kernel_abs=kabs, kernel_abs_fit=kabs_fit)
     ctx.label("forces_at_data" if case["force_fracs"] is None else "forces_separate")
     ctx.nt(nt)
 
